@@ -185,6 +185,42 @@ def check_get_code(ctx: Ctx, rule: str, short: str):
         ctx.check(_mentions_param(farg, "format") and len(x[2]) == 1, rule, gc.key("formatter"), "the requested formatter is looked up and applied to the result", f"{short}::get_code does not apply the formatter selected by `format` to the generated code (it applies {_av.show(x[1])[:80]})", gc.where())
 
 
+def check_value_forwarding(ctx: Ctx, rule: str, caller: Func, val, callee: Func, node, skip: set = frozenset()):
+    """check_call_forwarding on the *value* of the call (what reaches each parameter after helpers are expanded)"""
+    from sa import av as _av
+
+    cparams = callee.params
+    vals = val if isinstance(val, list) else [val]
+    passed: dict = {}
+    for one in vals:
+        args, kwargs = (one[2], one[3]) if one[0] == "call" else (one[3], one[4])
+        here = dict(zip(cparams, args))
+        here.update(dict(kwargs))
+        for q_, x_ in here.items():
+            passed[q_] = x_ if q_ not in passed or passed[q_] == x_ else ("list", (passed[q_], x_))
+    for q in cparams:
+        if q in skip:
+            continue
+        cands = ({q} | MAP.get(q, set())) & set(caller.params)
+        if not cands:
+            continue
+        key = caller.key(f"{callee.rel.split('/')[-1][:-3]}.{callee.name}::{q}")
+        if q not in passed:
+            ctx.fail(rule, key, f"{caller.qualname} accepts `{'/'.join(sorted(cands))}` but does not pass `{q}` to {callee.rel.split('/')[-1]}::{callee.name}: the option is silently ignored", caller.where())
+            continue
+        if _av.has_unk(passed[q]) and not any(_mentions_param(passed[q], x) for x in cands):
+            ctx.undecided(rule, key, f"what {caller.qualname} passes as `{q}` is not understood", caller.where())
+            continue
+        ctx.check(
+            any(_mentions_param(passed[q], x) for x in cands),
+            rule,
+            key,
+            f"{q} <- {_av.show(passed[q])[:60]}",
+            f"{caller.qualname} passes {q}={_av.show(passed[q])[:60]} to {callee.name}, which does not derive from its own option `{'/'.join(sorted(cands))}`",
+            caller.where(),
+        )
+
+
 def run(ctx: Ctx):
     sm = ctx.sm
     ctx.assume("exit codes as observed from a shell are not decided; typer's own argument validation (exists=True) is trusted")
@@ -193,25 +229,36 @@ def run(ctx: Ctx):
     # ---- R18.a option forwarding ------------------------------------------------------------------
     ctx.rule("R18.a", "every option of a conversion command reaches the dispatched main; every parameter of a main reaches get_code, the output path or logging; every get_code parameter is used", floor=40)
     dispatching = []
+    A18 = util.AV(ctx)
+    dispatched: dict[str, list] = {}
     for f in cmds:
+        n0 = len(A18.call_log)
+        try:
+            A18.returned(f)
+        except Exception as e:
+            ctx.undecided("R18.a", f.key("value"), f"command `{f.name}` could not be evaluated ({e})", f.where())
+            continue
+        log = A18.call_log[n0:]
         calls = []
-        for c in walk_no_nested(f.node):
-            if isinstance(c, ast.Call):
-                m = resolve_dispatch(ctx, f, c)
-                if m is not None and m.name == "main":
-                    calls.append((c, m))
+        by_node: dict[int, list] = {}
+        for caller, node, val in log:
+            m = resolve_dispatch(ctx, caller or f, node) if isinstance(node, ast.Call) else None
+            if m is not None and m.name == "main":
+                calls.append((val, m, node))
+                by_node.setdefault(id(node), []).append((val, m, node))
         if not calls:
             continue
         dispatching.append(f)
-        deps = fl.param_deps(f)
+        dispatched[f.name] = calls
         reached: set[str] = set()
-        for c, m in calls:
-            check_call_forwarding(ctx, "R18.a", f, c, m)
-            for a in list(c.args) + [k.value for k in c.keywords]:
-                reached |= fl.expr_params(a, deps)
-        for c in find_calls(f.node, "read_config"):
-            for a in list(c.args) + [k.value for k in c.keywords]:
-                reached |= fl.expr_params(a, deps)
+        # the same call site is met once per path that leads to it (an option may be replaced on one of them)
+        for group in by_node.values():
+            check_value_forwarding(ctx, "R18.a", f, [v for v, _m, _n in group], group[0][1], group[0][2])
+        for val, m, node in calls:
+            reached |= {p for p in f.params if _mentions_param(val, p)}
+        for caller, node, val in log:
+            if val[0] in ("call", "mcall") and (val[1] if val[0] == "call" else val[2]).split(".")[-1] == "read_config":
+                reached |= {p for p in f.params if _mentions_param(val, p)}
         conds = fl.condition_params(f)
         for p in f.params:
             if p in EXEMPT:
@@ -317,38 +364,55 @@ def run(ctx: Ctx):
         for k in keys:
             holders = [c for c, secs in expected.items() if k in secs.get(section, [])]
             ctx.check(bool(holders), "R18.c", f"docs/config.md::{section or 'tool.gotranx'}::{k}", "documented key is handled by a command", f"docs/config.md documents `{k}` under [{'tool.gotranx' + ('.' + section if section else '')}] but no command is expected to read it (checker table out of date)", "docs/config.md")
+    from sa import av as _av
+
     for f in dispatching:
         if f.name not in expected:
             continue
-        tables = {"": None}
-        for n in walk_no_nested(f.node):
-            if isinstance(n, ast.Assign) and isinstance(n.value, ast.Call) and (dotted(n.value.func) or "").endswith("read_config"):
-                tables[""] = norm(n.targets[0])
-        ctx.require(tables[""], f"{f.name}: read_config call not found")
-        for n in walk_no_nested(f.node):
-            if isinstance(n, ast.Assign) and isinstance(n.value, ast.Call) and norm(n.value.func) == f"{tables['']}.get" and n.value.args and const_str(n.value.args[0]) in ("python", "c"):
-                tables[const_str(n.value.args[0])] = norm(n.targets[0])
+        vals = [v for v, _m, _n in dispatched.get(f.name, [])]
+        mains = [m for _v, m, _n in dispatched.get(f.name, [])]
+        gets = [g for v in vals for g in _av.find_all(v, "mcall") if g[2] == "get" and g[3] and g[3][0][0] == "c"]
+
+        def is_root(t):
+            return t[0] in ("call", "mcall") and (t[1] if t[0] == "call" else t[2]).split(".")[-1] == "read_config"
+
+        def table_of(g):
+            """'' for the [tool.gotranx] table, the section name for a sub-table, None otherwise"""
+            t = g[1]
+            if is_root(t):
+                return ""
+            if t[0] == "mcall" and t[2] == "get" and t[3] and t[3][0][0] == "c" and is_root(t[1]):
+                return t[3][0][1]
+            return None
+
         for section, keys in expected[f.name].items():
-            tbl = tables.get(section)
             for k in keys:
                 key = f.key(f"config::{section + '.' if section else ''}{k}")
-                if tbl is None:
-                    ctx.fail("R18.c", key, f"command `{f.name}` does not read the [{section}] table of the configuration", f.where())
+                hits = [g for g in gets if g[3][0][1] == k and table_of(g) == section]
+                if not hits:
+                    if any(_av.has_unk(v) for v in vals):
+                        ctx.undecided("R18.c", key, f"command `{f.name}`: what reaches the dispatched main is not understood", f.where())
+                    elif section and not any(table_of(g) == section for g in gets):
+                        ctx.fail("R18.c", key, f"command `{f.name}` does not read the [{section}] table of the configuration", f.where())
+                    else:
+                        ctx.fail("R18.c", key, f"command `{f.name}` never reads the documented configuration key `{k}`", f.where())
                     continue
-                hit = None
-                for n in walk_no_nested(f.node):
-                    if isinstance(n, ast.Assign) and len(n.targets) == 1 and isinstance(n.targets[0], ast.Name):
-                        for c in ast.walk(n.value):
-                            if isinstance(c, ast.Call) and norm(c.func) == f"{tbl}.get" and c.args and const_str(c.args[0]) == k:
-                                hit = (n, c)
-                if hit is None:
-                    ctx.fail("R18.c", key, f"command `{f.name}` never reads the documented configuration key `{k}`", f.where())
-                    continue
-                n, c = hit
-                tgt = n.targets[0].id
-                dflt = c.args[1] if len(c.args) > 1 else None
-                okk = tgt == k and isinstance(dflt, ast.Name) and dflt.id == k
-                ctx.check(okk, "R18.c", key, f"{k} = {tbl}.get('{k}', {k})", f"command `{f.name}`: `{norm(n)}` does not assign key `{k}` to variable `{k}` with the command-line value as default", f.where(n))
+                g = hits[0]
+                dflt = g[3][1] if len(g[3]) > 1 else None
+                # the value read lands in the main's parameter of that name (or the one it is mapped to)
+                landed = []
+                for v in vals:
+                    kw = dict(v[3] if v[0] == "call" else v[4])
+                    landed += [q for q, x in kw.items() if _has_term(x, g)]
+                okq = any(q == k or k in MAP.get(q, set()) for q in landed)
+                okk = dflt is not None and _mentions_param(dflt, k) and okq
+                ctx.check(okk, "R18.c", key, f"{k} = <table>.get('{k}', {k})", f"command `{f.name}`: `{_av.show(g)[:90]}` does not hand key `{k}` to the main's `{k}` with the command-line value as default (it reaches {sorted(set(landed)) or 'nothing'})", f.where())
+
+
+def _has_term(v, t) -> bool:
+    if v == t:
+        return True
+    return isinstance(v, tuple) and any(_has_term(x, t) for x in v if isinstance(x, tuple))
 
 
 def documented_keys(ctx: Ctx) -> dict[str, list[str]]:
